@@ -1862,14 +1862,14 @@ class BaseSQL(
 
         p[0] = {}
 
-        if isinstance(p_list[2], str) and "CLUSTERED" == p_list[2]:
+        if isinstance(p_list[2], str) and "CLUSTERED" == p_list[2].upper():
             order = None
             column = None
             for item in p_list[-1]:
-                if item not in ["ASC", "DESC"]:
+                if item.upper() not in ["ASC", "DESC"]:
                     column = item
                 else:
-                    order = item
+                    order = item.upper()
                 if column and order:
                     columns.append({"column": column, "order": order})
                     column = None
